@@ -52,8 +52,7 @@ fn main() {
         "encode" => c08::run(&args, false),
         "source" => c08::run(&args, true),
         "sender" => c11::run(&args),
-        "recv" => c09::run(&args, false),
-        "memrecv" => c09::run(&args, true),
+        "recv" | "memrecv" | "session" | "loss" | "carousel" => c09::run(&args, argv[1].as_str()),
         "path" => c05::run(&args),
         "multi" => c18::run(&args),
         "toi" => c15::run(&args),
